@@ -595,9 +595,10 @@ def gen_xz_files(rng, count, lz2_pool, checks=(0, 1, 4)):
             wp, wu = rng.chance(1, 2), rng.chance(1, 2)
             blk = None
             # 'max': the largest padding that fits, i.e. the header size byte 0xFF (1024-byte header)
+            dprop = bytes([rng.choice([0, 1, 22, 37, 38, 39, 40, 40, rng.range(0, 40)])])      # LZMA2 dictionary-size byte: 0 .. 40 are all legal
             for hp_ in ([253, 252, 251, 250, 249] if hp == 'max' else [hp]):
                 try:
-                    blk = XzBlock(s['bytes'], s['out'], with_packed=wp, with_unpacked=wu, header_pad=hp_, mb_width=width)
+                    blk = XzBlock(s['bytes'], s['out'], with_packed=wp, with_unpacked=wu, header_pad=hp_, mb_width=width, props=dprop)
                     xz_block_bytes(blk, check)
                     break
                 except ValueError:
@@ -881,6 +882,9 @@ def run_C17(ck):
         if enc is None: raise InfraError('reference serialiser rejected a big C17 chunk')
         b = enc[0]
         add('control_bit7_cleared_big', bytes([b[0] & 0x7F]) + b[1:], False)
+        w_ = walk_lzma2(b)[0]
+        for m_ in (w_['payload_len'] - 1, rng.range(1, w_['payload_len'] - 1)):
+            add('packed_field_reduced_big', b[:3] + struct.pack('>H', m_ - 1) + b[5:], False)
     # payload/size disagreements built from programs: overshooting match, marker inside the chunk
     reqs, metas = [], []
     for k in range(60 if ck.tier == 'quick' else 400):
@@ -1503,7 +1507,7 @@ def run_C11(ck):
         elif s['style'] == 'marker':
             cases.append({'line': 'lzma_dec opt=rfh in=%s rd=%s' % (hx(b + trail), RD()), 'meta': {'kind': 'lzma_marker', 'trail': len(trail)}, 'must_err': len(trail) > 0, 'expect_out': s['out']})
         ck.count('lzma_' + s['style'])
-    pool = gen_lzma2_streams(rng, 80 if quick else 500)
+    pool = gen_lzma2_streams(rng, 80 if quick else 500, [65536, 131072, 262144, 65537] if quick else [65536 * k_ for k_ in range(1, 9)] + [65537, 131073])
     for s in pool:
         tl = rng.choice([0, 1, 3, 8, 40])
         trail = rng.choice([rng.bytes(tl), bytes(tl)])
@@ -1578,9 +1582,20 @@ def run_C12(ck):
     lz = gen_lzma_streams(rng, 6 if quick else 30, big_every=3, max_syms=30) + gen_wrap_streams(rng, 1 if quick else 4, ('marker', 'sized', 'sized+marker'))
     l2 = gen_lzma2_streams(rng, 5 if quick else 25)
     xzs = gen_xz_files(rng, 5 if quick else 25, [p for p in l2 if len(p['bytes']) < 3000] or l2)
-    for s in lz: bases.append(('lzma_dec opt=rfh in=%s' % hx(s['bytes']), 'lzma_dec', s['out']))
+    for s in lz:
+        bases.append(('lzma_dec opt=rfh in=%s' % hx(s['bytes']), 'lzma_dec', s['out']))
+        size_ = 'none' if s['style'] == 'marker' else str(s['n'])
+        if rng.chance(1, 2): bases.append(('lzma_dec opt=rhp:%s in=%s' % (size_, hx(s['bytes'][:5] + junk_field(rng) + s['bytes'][13:])), 'lzma_dec', s['out']))
+        else: bases.append(('lzma_dec opt=up:%s in=%s' % (size_, hx(s['bytes'][:5] + s['bytes'][13:])), 'lzma_dec', s['out']))
     for s in l2: bases.append(('lzma2_dec in=%s' % hx(s['bytes']), 'lzma2_dec', s['out']))
     for f in xzs: bases.append(('xz_dec in=%s' % hx(f['bytes']), 'xz_dec', f['out']))
+    # tiny members under the second and third header option with an all-zero / all-ones ignored field: if an error while reading
+    # the header were swallowed, the bytes that follow would still decode to *something* of the requested size
+    tiny_ = ref_encode(['ref_lzma lc=3 lp=0 pb=2 dict=4096 size=%d delta=0 prog=%s' % (n_, '.'.join('L%d' % rng.range(1, 255) for _ in range(n_))) for n_ in (1, 1, 2, 3)])
+    for e_, n_, fld_ in zip(tiny_, (1, 1, 2, 3), (bytes(8), b'\xff' * 8, bytes(8), rng.bytes(8))):
+        if e_ is None: raise InfraError('reference encoder rejected a tiny program')
+        bases.append(('lzma_dec opt=rhp:%d in=%s' % (n_, hx(e_[0][:5] + fld_ + e_[0][13:])), 'lzma_dec', e_[1]))
+        bases.append(('lzma_dec opt=up:%d in=%s' % (n_, hx(e_[0][:5] + e_[0][13:])), 'lzma_dec', e_[1]))
     # inputs that decode to nothing: the sink still has to be flushed and a failing flush reported
     empties = ref_encode(['ref_lzma lc=3 lp=0 pb=2 dict=4096 size=none delta=0 prog=E', 'ref_lzma lc=0 lp=2 pb=1 dict=65536 size=0 delta=0 prog=-',
                           'ref_lzma lc=3 lp=0 pb=2 dict=4096 size=0 delta=0 prog=E'])
@@ -1685,9 +1700,13 @@ def run_C13(ck):
     rng = Rng(ck.seed).fork('C13')
     quick = ck.tier == 'quick'
     inputs = []
+    BOUNDARY = {}
     for s in gen_lzma_streams(rng, 25 if quick else 200, big_every=9, max_syms=40) + gen_wrap_streams(rng, 2 if quick else 10, ('marker', 'sized', 'sized+marker')):
         for kind, data, opt in lzma_variants(rng, s):
             inputs.append(('lzma_dec opt=%s in=%s' % (opt, hx(data + (rng.bytes(5) if kind == 'valid' and s['style'] == 'sized' else b''))), kind))
+            if kind == 'trailing' or (kind == 'valid' and s['style'] == 'sized'):
+                # remember where the payload ends: a reader whose buffer boundary falls exactly there is one of the policies
+                BOUNDARY[inputs[-1][0]] = len(s['bytes'])
     pool = gen_lzma2_streams(rng, 25 if quick else 150)
     for s in pool:
         b = s['bytes']
@@ -1735,7 +1754,11 @@ def run_C13(ck):
     for line, kind in inputs:
         grp = []
         pols = ['all', '1', 'std:slice', 'std:buf:1', 'std:buf:%d' % rng.range(2, 6), 'std:buf:%d' % rng.range(7, 64), '%d,%d,%d' % (rng.range(1, 9), rng.range(1, 4), rng.range(1, 30)), '%d' % rng.range(2, 6)]
-        for rd in (pols if not quick else pols[:3] + [rng.choice(pols[3:]), rng.choice(pols[3:])]):
+        extra = []
+        if line in BOUNDARY:
+            L_ = BOUNDARY[line]
+            extra = ['%d,%d' % (L_, rng.range(1, 9)), 'std:buf:%d' % L_] + (['%d,%d' % (L_ - 13, 5)] if L_ > 14 else [])
+        for rd in (pols if not quick else pols[:3] + [rng.choice(pols[3:]), rng.choice(pols[3:])]) + extra:
             c = {'line': '%s rd=%s' % (line, rd), 'meta': {'kind': kind, 'rd': rd}, 'grp': grp}
             grp.append(c); cases.append(c)
         ck.count('kind_' + kind)
